@@ -23,10 +23,10 @@ EVAL_KEY = "contract_evals"
 DISTINCT_KEY = "cases"
 NSHARDS = {"quick": 8, "thorough": 16}
 FLOORS = {"quick": {"contract_evals": 4000, "judged:update": 800, "judged:find": 500, "judged:findall": 500,
-                    "judged:findunique": 300, "judged:findkey": 300, "items_lacking_key_cases": 300},
+                    "judged:findunique": 300, "judged:findkey": 300, "items_lacking_key_cases": 300, "history_checks": 300},
           "thorough": {"contract_evals": 300000, "judged:update": 60000, "judged:find": 30000,
                        "judged:findall": 30000, "judged:findunique": 20000, "judged:findkey": 20000,
-                       "items_lacking_key_cases": 20000}}
+                       "items_lacking_key_cases": 20000, "history_checks": 20000}}
 ASSUMPTIONS = ["mf/dictmodel.py restates the documented laws", "deep copies of the arguments are faithful (C17 decides deepcopy)"]
 DOMAIN = ["update: deleting an absent key, empty lists in the patch, None/delete placeholders beyond the end of the original "
           "list, dict patches over non-dict values and falsy __delete__ markers are observed but not judged",
@@ -443,6 +443,29 @@ def run(ctx):
                                   core.canon(got), core.canon(want))
                 if core.fp(t) != before:
                     res.violation("findkey-mutates", {"fn": "findkey", "d": core.canon(t), "path": path}, None, None)
+        if i % 4 == 0:
+            # history: one patch applied to two dictionaries, then only the first is updated again - the second dictionary and
+            # the patch must not change (no mutable state may be shared through update)
+            kind = r.choice(["plain", "ci"])
+            t1 = gen_target(r, kind)
+            t2 = copy.deepcopy(t1) if r.random() < 0.5 else gen_target(r, kind)
+            p1 = gen_patch(r, t1, kind)
+            if dictmodel.update_domain(t1, p1) is None and dictmodel.update_domain(t2, p1) is None:
+                ok1, _ = call(res, mappyfile.update, "update", (t1, p1, True))
+                ok2, _ = call(res, mappyfile.update, "update", (t2, p1, True))
+                if ok1 and ok2:
+                    fp2, fpp = core.fp(t2), core.fp(p1)
+                    q = gen_patch(r, t1, kind)
+                    if dictmodel.update_domain(t1, q) is None:
+                        call(res, mappyfile.update, "update", (t1, q, True))
+                        res.count("history_checks")
+                        res.seen("cases", _h("history", t1, p1, q))
+                        if core.fp(t2) != fp2:
+                            res.violation("update-of-one-dictionary-changes-another", {"fn": "update-history", "t2": core.canon(t2), "p1": core.canon(p1),
+                                                                                       "q": core.canon(q)}, "t2 changed", "t2 untouched")
+                        if core.fp(p1) != fpp:
+                            res.violation("update-changes-an-earlier-patch", {"fn": "update-history", "p1": core.canon(p1), "q": core.canon(q)},
+                                          "p1 changed", "p1 untouched")
         flush(res)
     total = 0
     for k, v in contracts.EVALS.items():
